@@ -52,8 +52,8 @@ class C13(Check):
     thorough = (12000, 16)
 
     def __init__(self):
-        self.feat = gen.Features(attrs=True, shuffle_keys=True, big=False, dict_prims=0.15)
-        self.vfeat = gen.Features(attrs=True, shuffle_keys=True, big=False, dict_prims=0.3)
+        self.feat = gen.Features(attrs=True, shuffle_keys=True, big=False, dict_prims=0.15, dict_null=True)
+        self.vfeat = gen.Features(attrs=True, shuffle_keys=True, big=False, dict_prims=0.3, dict_null=True)
 
     def selftest(self):
         B.selftest()
